@@ -65,10 +65,12 @@ fn run_case(id: &str, origin: &str, vseed: u64, ctx: &mut Context, sys0: &Transi
             let r1 = guarded(|| patronus::btor2::parse_str(ctx, text1, Some("t")));
             match r1 {
                 Ok(Some(sys1)) => {
-                    line.push_str(&format!(" (sys1 (ok {})) (names1 {})", dump_sys_dag(ctx, &sys1).text, names_field(ctx, &sys1)));
+                    let d1 = dump_sys_dag(ctx, &sys1);
+                    line.push_str(&format!(" (sys1 (ok {} {})) (names1 {})", d1.text, d1.signames, names_field(ctx, &sys1)));
                     let s2 = ser(ctx, &sys1);
                     line.push_str(&format!(" (ser2 {})", ser_field(&s2)));
                     if let Ser::Ok(text2) = &s2 {
+                        line.push_str(&format!(" (text2 {})", quote(text2)));
                         let r2 = guarded(|| patronus::btor2::parse_str(ctx, text2, Some("t")));
                         if let Ok(Some(sys2)) = r2 {
                             line.push_str(&format!(" (names2 {})", names_field(ctx, &sys2)));
